@@ -257,6 +257,9 @@ func intLit(rt *rapid.T, bits int, signed bool) string {
 		return rapid.SampledFrom(b).Draw(rt, "bound")
 	case k == 7:
 		return rapid.SampledFrom([]string{"1.0", "1e2", "1.5", "1E0", "-1e1", "0.0", "1e-1", "10e-1", "1e19", "1e20"}).Draw(rt, "floatint")
+	case k == 8 && rapid.Bool().Draw(rt, "leadzero"):
+		// forms that are not JSON numbers but that strconv accepts (quoted ",string" values, map keys)
+		return rapid.SampledFrom([]string{"00", "01", "-01", "007", "-007", "+1", "0042", "000", "-00", "+0", "0127", "00000000000000000001"}).Draw(rt, "leadzero-lit")
 	case k == 8:
 		return rapid.SampledFrom([]string{"123456789012345678901234567890", "-123456789012345678901234567890", "99999999999999999999", "00", "01", "-01", "+1", "0x1", "1_0", "92233720368547758070", "92233720368547758080", "9223372036854775810", "-92233720368547758090", "-9223372036854775810", "18446744073709551620", "184467440737095516150", "184467440737095516160", "28446744073709551616"}).Draw(rt, "bigint")
 	default:
